@@ -42,6 +42,12 @@ fn main() {
         });
         std::process::exit(replay(&v, path));
     }
+    if args[0] == "idl-deep" {
+        // child process of C13: one deeply nested type, parsed on a thread with the given stack
+        let depth: usize = args.get(1).and_then(|s| s.parse().ok()).unwrap_or(1000);
+        let kind: usize = args.get(2).and_then(|s| s.parse().ok()).unwrap_or(0);
+        std::process::exit(idl::deep_child(depth, kind));
+    }
     if args[0] == "limits-prod" {
         std::process::exit(limits::production_child());
     }
